@@ -830,7 +830,12 @@ func (d *badgerNodeDB) Prune(version uint64) error {
 		if innerErr != nil {
 			return innerErr
 		}
-		if err != nil {
+		switch {
+		case err == nil:
+		case errors.Is(err, api.ErrRootNotFound):
+			// The root has already been removed by an earlier prune of this version which was
+			// interrupted before the metadata got updated.
+		default:
 			return err
 		}
 
